@@ -484,6 +484,28 @@ def add_cfgs(prog, rng, p_item=0.3):
     return n
 
 
+VARIANT_NAMES = ["None", "Default", "New", "Null", "True", "False", "Class", "Delete", "Int", "Double", "Void", "Static", "Namespace", "Template", "Typename",
+                 "Auto", "Register", "Signed", "Unsigned", "Short", "Long", "Char", "Float", "Union", "Volatile", "Inline", "Restrict", "Sizeof", "Goto", "Operator",
+                 "This", "Friend", "Virtual", "Export", "Import", "Typeof", "Var", "Let", "Function", "Yield", "Await", "Async", "With", "In", "Of", "Instanceof",
+                 "Arguments", "Eval", "Undefined", "NaN", "Infinity", "MultiWordName", "Abc123", "X", "HTTPServer", "Values", "Name", "Index", "ToString", "HashCode"]
+
+
+def rename_variants(prog, rng, p_enum=0.6):
+    """Enum variants named like keywords / builtins of the target languages once re-cased (None, Default, New, Class, NaN ..), multi-word and
+    digit-bearing names: signature-only workloads (nothing else refers to a variant by name). Returns the number of enums touched."""
+    n = 0
+    for t in prog.types():
+        if t.kind == "enum" and rng.random() < p_enum:
+            names = rng.sample(VARIANT_NAMES, len(t.variants))
+            ren = {old: new for (old, _), new in zip(t.variants, names)}
+            t.variants = [(ren[vn], e) for vn, e in t.variants]
+            t.lit_styles = {ren[vn]: st for vn, st in getattr(t, "lit_styles", {}).items()}
+            if getattr(t, "variant_attrs", None):
+                t.variant_attrs = {ren[vn]: a for vn, a in t.variant_attrs.items()}
+            n += 1
+    return n
+
+
 def add_demo_attrs(prog, rng, generate=True):
     """#[diplomat::demo(...)] attributes (only demo_gen reads them): generate on methods, input(label / default_value) on struct fields,
     custom_func on types, default_constructor on opaque constructors."""
